@@ -83,10 +83,13 @@ claim("C12",
       text="Proof for ALL strictly monotone bins (any length>=1, increasing or decreasing) and ALL real x: the recursive closure add_nodes is verified "
            "against a recursive contract (ghost leafid/final values, decreases clause, every Tree._add_node slot filled once), digitize2tree's prediction equals "
            "numpy.digitize(x, bins, right=True); the descending case by the value-rewriting loop invariant; right=False refused; tree_leave_index lists exactly "
-           "the leaves in increasing order (loop invariant with a ghost membership predicate). Bounded (compiled code): all monotone bins of length<=4 over a "
-           "float32-exact grid, fitted trees: predict_leaves=apply, tree_node_range = box of routed points.",
-      note="Over the reals (A1): the float32 cast inside scikit-learn is a recorded known finding. Assumed contract of Tree._add_node/predict. predict_leaves, "
-           "tree_node_range, tree_node_parents only bounded.",
+           "the leaves in increasing order (loop invariant with a ghost membership predicate); tree_node_range (with tree_node_parents and "
+           "tree_find_path_to_root executed): for 5 tree shapes (up to 7 nodes, depth 3) x every leaf and ANY numbering of the nodes (best-first or "
+           "depth-first storage), ANY split features, thresholds and point, a point is in the returned box iff the tree routes it to the leaf. Bounded "
+           "(compiled code): all monotone bins of length<=4 over a float32-exact grid, fitted trees (depth-first and best-first): predict_leaves=apply, "
+           "tree_node_range = box of routed points.",
+      note="Over the reals (A1): the float32 cast inside scikit-learn is a recorded known finding. Assumed contract of Tree._add_node/predict. "
+           "tree_node_range is bounded in the shape of the tree (not in its numbering); predict_leaves only bounded.",
       technique="deductive verification: recursive contract + loop invariants over ghost tree semantics, z3")
 claim("C11",
       text="Per configuration, complete in the input: for each of 128 configurations (n_features<=4, degree<=4, interaction_only, include_bias, kind poly / "
